@@ -46,9 +46,9 @@ import Isotp.Proofs.Sock
      `socket_init_agrees`, `socket_init_is_initial`, `socket_settimeout_agrees`, `socket_gettimeout_agrees`, `socket_fileno_agrees`.
   3. `can_message_init_agrees`, `can_message_init_shows`.
   4. `python_can_tx_3minus_agrees`, `python_can_tx_3minus_once`, `python_can_tx_3minus_same_values`, `kwName_3minus`,
-     `kws3minus_no_dlc`, `kws3minus_vs_3plus`; `make_python_can_tx_func_src`, `make_python_can_tx_func_branches`, and the reported GAP
-     `make_python_can_tx_func_in_gap` (the frozen interpreter cannot evaluate `'is_extended_id' in message_input_args` to `True`: no
-     `_agrees` theorem is claimed for the membership test).
+     `kws3minus_no_dlc`, `kws3minus_vs_3plus`; `make_python_can_tx_func_src`, `make_python_can_tx_func_branches`, `memTest_eval`,
+     `make_python_can_tx_func_agrees`, `make_python_can_tx_func_choice` (the membership test `'is_extended_id' in message_input_args`
+     is dumped as the mapping's `__contains__`; the gap reported earlier as `make_python_can_tx_func_in_gap` is closed).
   5. `can_stack_set_bus_agrees`, `can_stack_init_agrees`, `notifier_stack_init_agrees`, `can_stack_init_calls_base_once`.
   6. `events_init_agrees`, `events_init_shows_cleared`, `events_init_obj`, `set_rxfn_agrees`.
   Section 8: one non-vacuity `example` per group.
@@ -745,20 +745,22 @@ def mkTxBody (c : PExpr) : PBlock :=
   .nil)
 
 /-- the membership test of the source: `'is_extended_id' in message_input_args` -/
-def memTest : PExpr := .cmp .isIn (.strLit "is_extended_id") (.var "message_input_args")
+def memTest : PExpr := .call "__contains__" (.cons (.var "message_input_args") (.cons (.strLit "is_extended_id") .nil))
 
 /-- the dumped source IS: bind `message_input_args = inspect.signature(can.Message.__init__).parameters`; if
     `'is_extended_id' in message_input_args` return `functools.partial(python_can_tx_canbus_3plus, owner)`, else
     `functools.partial(python_can_tx_canbus_3minus, owner)` -/
 theorem make_python_can_tx_func_src : Src.module_p_make_python_can_tx_func = mkTxBody memTest := rfl
 
-/-- `inspect.signature` is ANY `Sg`, the attribute of a computed value (`__attr__`) ANY `At`, `functools.partial` ANY `P` -/
-def mkTxM (Sg At P : List PV → Except PErr PV) : Meths where
+/-- `inspect.signature` is ANY `Sg`, the attribute of a computed value (`__attr__`) ANY `At`, `functools.partial` ANY `P`, the
+    membership test of a string in a mapping (`__contains__`, how the dumper presents `'name' in mapping`) ANY `C` -/
+def mkTxM (Sg At P C : List PV → Except PErr PV) : Meths where
   fn name args _ :=
     match name with
     | "inspect.signature" => Sg args
     | "__attr__" => At args
     | "functools.partial" => P args
+    | "__contains__" => C args
     | n => .error (.unsupported ("call " ++ n))
   proc name _ _ := .error (.unsupported ("call " ++ name))
 
@@ -770,21 +772,20 @@ structure MkTxFrame (env : Env) (ow init f3p f3m : PV) : Prop where
   f3m : env "python_can_tx_canbus_3minus" = some f3m
 
 /-- **`_make_python_can_tx_func(owner)`, branch structure** - for ANY test `c` in the place of the membership test that evaluates to a
-    boolean `b` once `message_input_args` is bound: `inspect.signature(can.Message.__init__)` is taken ONCE, its attribute `parameters`
-    is bound to `message_input_args`, and the result is `functools.partial(python_can_tx_canbus_3plus, owner)` if `b`, else
-    `functools.partial(python_can_tx_canbus_3minus, owner)` (one `partial` call, exactly these two arguments).
-    See `make_python_can_tx_func_in_gap` for why this is not stated with the source's own test. -/
-theorem make_python_can_tx_func_branches (Sg At P : List PV → Except PErr PV) (c : PExpr) (env : Env) (ow init f3p f3m : PV)
+    boolean `b ps` once `message_input_args` is bound to `ps`: `inspect.signature(can.Message.__init__)` is taken ONCE, its attribute
+    `parameters` is bound to `message_input_args`, and the result is `functools.partial(python_can_tx_canbus_3plus, owner)` if `b ps`,
+    else `functools.partial(python_can_tx_canbus_3minus, owner)` (one `partial` call, exactly these two arguments). -/
+theorem make_python_can_tx_func_branches (Sg At P C : List PV → Except PErr PV) (c : PExpr) (env : Env) (ow init f3p f3m : PV)
     (hF : MkTxFrame env ow init f3p f3m)
-    (b : Bool) (hc : ∀ ps, eval (mkTxM Sg At P) (env.set "message_input_args" ps) c = .ok (pbool b)) :
-    runFn (mkTxM Sg At P) env (mkTxBody c) =
+    (b : PV → Bool) (hc : ∀ ps, eval (mkTxM Sg At P C) (env.set "message_input_args" ps) c = .ok (pbool (b ps))) :
+    runFn (mkTxM Sg At P C) env (mkTxBody c) =
       (do let sg ← Sg [init]
           let ps ← At [sg, .str "parameters"]
-          let r ← P [if b then f3p else f3m, ow]
+          let r ← P [if b ps then f3p else f3m, ow]
           .ok (r, env.set "message_input_args" ps)) := by
   obtain ⟨h1, h2, h3, h4⟩ := hF
   have eP : ∀ (e : Env) (nm : String) (f : PV), e nm = some f → e "owner" = some ow →
-      execBlock (mkTxM Sg At P) e (.cons (.ret (.call "functools.partial" (.cons (.var nm) (.cons (.var "owner") .nil)))) .nil) =
+      execBlock (mkTxM Sg At P C) e (.cons (.ret (.call "functools.partial" (.cons (.var nm) (.cons (.var "owner") .nil)))) .nil) =
         (P [f, ow] >>= fun r => .ok (.returned r e)) := by
     intro e nm f hf ho
     simp [execBlock, execStmt, eval, evalArgs, hf, ho, nb "functools.partial" (by decide), mkTxM]
@@ -799,14 +800,14 @@ theorem make_python_can_tx_func_branches (Sg At P : List PV → Except PErr PV) 
       simp [runFn, mkTxBody, execBlock, execStmt, eval, evalArgs, h2, nb "inspect.signature" (by decide), nb "__attr__" (by decide),
         mkTxM, hS, hA]
     | ok ps =>
-      have s1 : execStmt (mkTxM Sg At P) env (.assign "message_input_args" (.call "__attr__" (.cons (.call "inspect.signature"
+      have s1 : execStmt (mkTxM Sg At P C) env (.assign "message_input_args" (.call "__attr__" (.cons (.call "inspect.signature"
           (.cons (.var "can.Message.__init__") .nil)) (.cons (.strLit "parameters") .nil)))) =
           .ok (.next (env.set "message_input_args" ps)) := by
         simp [execStmt, eval, evalArgs, h2, nb "inspect.signature" (by decide), nb "__attr__" (by decide), mkTxM, hS, hA]
       have ho : (env.set "message_input_args" ps) "owner" = some ow := by simp [set_get, h1]
-      rw [runFn, mkTxBody, execBlock_cons_ok _ _ _ _ _ s1, execBlock, exec_ite_bool _ _ _ _ _ b (hc ps)]
+      rw [runFn, mkTxBody, execBlock_cons_ok _ _ _ _ _ s1, execBlock, exec_ite_bool _ _ _ _ _ (b ps) (hc ps)]
       simp only [ok_bind]
-      cases b
+      cases hb : b ps
       · rw [if_neg (by simp), eP _ _ f3m (by simp [set_get, h4]) ho]
         simp only [Bool.false_eq_true, if_false]
         cases P [f3m, ow] <;> rfl
@@ -814,24 +815,42 @@ theorem make_python_can_tx_func_branches (Sg At P : List PV → Except PErr PV) 
         simp only [if_true]
         cases P [f3p, ow] <;> rfl
 
-/-- **GAP (reported, not papered over)**: the frozen interpreter cannot express `'is_extended_id' in message_input_args`.  A string
-    literal evaluates to `PV.str`, the elements of a `PV.list` are scalars (`Sc`), and `pvEq (.str _) (.sc _) = false`; any value that is
-    not a `PV.list` makes `in` an interpreter error.  So under `eval` the source's own test is NEVER `True`, whatever
-    `inspect.signature(...).parameters` is presented as: the interpreted function would always choose the `3minus` adapter, which is NOT
-    what Python does when `is_extended_id` is a parameter of `can.Message.__init__`.  No agreement theorem is claimed for the test
-    itself. -/
-theorem make_python_can_tx_func_in_gap (M : Meths) (env : Env) (ps : PV) (h : env "message_input_args" = some ps) :
-    eval M env memTest = .ok (pbool false) ∨ ∃ e, eval M env memTest = .error e := by
-  cases ps with
-  | list xs =>
-    left
-    have : (xs.any fun x => pvEq (.str "is_extended_id") (.sc x)) = false := by
-      rw [List.any_eq_false]; intro x _; simp [pvEq]
-    simp [memTest, eval, h, this]
-  | sc x => right; exact ⟨.unsupported "in: right operand is not a list literal", by simp [memTest, eval, h, evalCmp]⟩
-  | bytes x => right; exact ⟨.unsupported "in: right operand is not a list literal", by simp [memTest, eval, h, evalCmp]⟩
-  | str x => right; exact ⟨.unsupported "in: right operand is not a list literal", by simp [memTest, eval, h, evalCmp]⟩
-  | meth x => right; exact ⟨.unsupported "in: right operand is not a list literal", by simp [memTest, eval, h, evalCmp]⟩
+/-- the source's own test, `'is_extended_id' in message_input_args` (dumped as `__contains__(message_input_args, 'is_extended_id')`),
+    asks the mapping bound to `message_input_args` exactly ONE question: whether it has the key `'is_extended_id'` -/
+theorem memTest_eval (Sg At P C : List PV → Except PErr PV) (env : Env) (ps : PV) :
+    eval (mkTxM Sg At P C) (env.set "message_input_args" ps) memTest = C [ps, .str "is_extended_id"] := by
+  simp [memTest, eval, evalArgs, set_get, nb "__contains__" (by decide), mkTxM]
+
+/-- **`_make_python_can_tx_func(owner)` agrees with its description, with the SOURCE'S OWN membership test**: with `has ps` the answer
+    of the mapping `ps = inspect.signature(can.Message.__init__).parameters` to "is `'is_extended_id'` one of your keys?", the function
+    returns `functools.partial(python_can_tx_canbus_3plus, owner)` exactly when `has ps` (python-can >= 3: `is_extended_id` is a
+    constructor parameter), and `functools.partial(python_can_tx_canbus_3minus, owner)` otherwise; the signature is taken once and
+    `partial` is called once with exactly the chosen adapter and the owner.  (This closes the gap reported earlier as
+    `make_python_can_tx_func_in_gap`: the interpreter's `in` decides only membership in a list of scalars, so the dumper now presents a
+    string-literal membership test as the container's `__contains__`.) -/
+theorem make_python_can_tx_func_agrees (Sg At P C : List PV → Except PErr PV) (env : Env) (ow init f3p f3m : PV)
+    (hF : MkTxFrame env ow init f3p f3m)
+    (has : PV → Bool) (hC : ∀ ps, C [ps, .str "is_extended_id"] = .ok (pbool (has ps))) :
+    runFn (mkTxM Sg At P C) env Src.module_p_make_python_can_tx_func =
+      (do let sg ← Sg [init]
+          let ps ← At [sg, .str "parameters"]
+          let r ← P [if has ps then f3p else f3m, ow]
+          .ok (r, env.set "message_input_args" ps)) := by
+  rw [make_python_can_tx_func_src]
+  exact make_python_can_tx_func_branches Sg At P C memTest env ow init f3p f3m hF has
+    (fun ps => by rw [memTest_eval, hC])
+
+/-- a python-can whose `Message.__init__` HAS the parameter `is_extended_id` gets the `3plus` adapter, one that has not gets `3minus`
+    (swapping the adapters, or negating the test, is visible) -/
+theorem make_python_can_tx_func_choice (Sg At P C : List PV → Except PErr PV) (env : Env) (ow init f3p f3m sg ps : PV)
+    (hF : MkTxFrame env ow init f3p f3m) (has : PV → Bool) (hC : ∀ ps, C [ps, .str "is_extended_id"] = .ok (pbool (has ps)))
+    (hS : Sg [init] = .ok sg) (hA : At [sg, .str "parameters"] = .ok ps) :
+    runFn (mkTxM Sg At P C) env Src.module_p_make_python_can_tx_func =
+      (P [if has ps then f3p else f3m, ow] >>= fun r => .ok (r, env.set "message_input_args" ps)) := by
+  rw [make_python_can_tx_func_agrees Sg At P C env ow init f3p f3m hF has hC, hS]
+  simp only [ok_bind]
+  rw [hA]
+  simp only [ok_bind]
 
 /-! ## 5. `CanStack.__init__`, `CanStack.set_bus`, `NotifierBasedCanStack.__init__` (isotp/protocol.py)
 
@@ -1424,9 +1443,9 @@ example : MkTxFrame exMkTxEnv (.meth "owner") (.meth "can.Message.__init__") (.m
     (.meth "python_can_tx_canbus_3minus") := ⟨rfl, rfl, rfl, rfl⟩
 
 /-- both branches of `make_python_can_tx_func_branches` are reachable (tests `True` / `False` in the place of the membership test) -/
-example (Sg At P : List PV → Except PErr PV) :
-    (∀ ps, eval (mkTxM Sg At P) (exMkTxEnv.set "message_input_args" ps) .tt = .ok (pbool true)) ∧
-    (∀ ps, eval (mkTxM Sg At P) (exMkTxEnv.set "message_input_args" ps) .ff = .ok (pbool false)) :=
+example (Sg At P C : List PV → Except PErr PV) :
+    (∀ ps, eval (mkTxM Sg At P C) (exMkTxEnv.set "message_input_args" ps) .tt = .ok (pbool true)) ∧
+    (∀ ps, eval (mkTxM Sg At P C) (exMkTxEnv.set "message_input_args" ps) .ff = .ok (pbool false)) :=
   ⟨fun _ => by simp [eval], fun _ => by simp [eval]⟩
 
 /-- group 5: a frame of `CanStack.__init__` / `NotifierBasedCanStack.__init__`, an `update` that keeps the names, and a run under the
@@ -1558,7 +1577,9 @@ end Isotp.PyAgree.Ctors
 #print axioms Isotp.PyAgree.Ctors.python_can_tx_3minus_same_values
 #print axioms Isotp.PyAgree.Ctors.make_python_can_tx_func_src
 #print axioms Isotp.PyAgree.Ctors.make_python_can_tx_func_branches
-#print axioms Isotp.PyAgree.Ctors.make_python_can_tx_func_in_gap
+#print axioms Isotp.PyAgree.Ctors.memTest_eval
+#print axioms Isotp.PyAgree.Ctors.make_python_can_tx_func_agrees
+#print axioms Isotp.PyAgree.Ctors.make_python_can_tx_func_choice
 #print axioms Isotp.PyAgree.Ctors.can_stack_set_bus_agrees
 #print axioms Isotp.PyAgree.Ctors.setBusCallee_eq
 #print axioms Isotp.PyAgree.Ctors.stackM_isBus
